@@ -5,16 +5,26 @@
    harness/cmd/c16 (osmgeojson.Convert, annotate.Relations, and mputil.Join/Ring/Orientation,
    polygonContains, addToMultiPolygon through the verif-tagged hook osmgeojson/verif_export.go).
 
-   What is proved for ALL inputs (unbounded):  termination; conservation of segments and vertices
-   with the exact trimming structure of every chain; closedness of every chain for every cut,
-   reversal and order; winding of Ring(o) with truthful / partial / no member orientations;
-   the value annotateOrientation writes; independence from the coordinate source.
-   What is only checked on the implementation by the property oracle (judgement 2 of C16/Check.v)
-   and NOT proved: that a closed chain is exactly ONE ring (join_closes_rings, full statement
-   below), the geometric correctness of ray casting (holes_assigned) and the composition
-   build_polygon_recovers. *)
+   What is proved, for ALL inputs (unbounded; nothing is partial):
+   1  termination of the joining loop;
+   2  conservation of segments, vertices and edges, with the exact trimming structure of chains;
+   3  join_closes_rings: for every cut of vertex-disjoint rings, every reversal and order, the
+      chains are in bijection with the rings and each chain line is exactly its ring;
+   4  winding of Ring(o) with truthful / partial / no member orientations;
+   5  orientation_annotation_truthful: what annotate_orientation writes on every member;
+   6  independence from the coordinate source (lines, and in 8b the whole result);
+   7  holes_assigned: every hole goes to its own outer and no other; ray casting is the exact
+      rational even-odd rule and does not depend on how the rings are written;
+   8  build_polygon_recovers on the arguments of buildPolygon (nodes, ways, relation members),
+      with all / some / no truthful annotations, both paths, either IncludeInvalidPolygons;
+   9  the decision structure of the model equals the one regenerated from /repo (translator);
+   10 a Jordan-style theorem: points reachable from the kernel point of a star-shaped ring have an
+      odd crossing number, so 7 and 8 are also stated over geometric containment (10b);
+   11 addToMultiPolygon on arbitrary (malformed) input: what is kept and what is dropped.
+   Scope notes: geometric containment is for star-shaped outers (the generator's scene class),
+   not arbitrary simple polygons; Way.Updates are not modelled here (C15). *)
 From Coq Require Import ZArith List Bool Permutation Lia.
-From Verif Require Import Geo.Model Geo.JoinProofs Geo.Conserve Geo.Closes Geo.Cut Geo.Orient Geo.Sources Geo.Holes Geo.Annotate Geo.Edges Geo.Rings Geo.GroupIdx Geo.Recover Geo.Contain Geo.Assign Geo.Truthful Geo.Build Geo.Collect Geo.Jordan Geo.BuildGeo C16.Spec C16.RayQ Geo.Tables C16.GenOk.
+From Verif Require Import Geo.Model Geo.JoinProofs Geo.Conserve Geo.Closes Geo.Cut Geo.Orient Geo.Sources Geo.Holes Geo.Annotate Geo.Edges Geo.Rings Geo.GroupIdx Geo.Recover Geo.Contain Geo.Assign Geo.Truthful Geo.Build Geo.Collect Geo.Jordan Geo.BuildGeo Geo.Invalid C16.Spec C16.RayQ Geo.Tables C16.GenOk.
 From VerifGen Require Import GenMputil.
 Import ListNotations.
 Open Scope Z_scope.
@@ -211,9 +221,9 @@ Print Assumptions C16_coordinate_sources.
       scene generator asserts with exact integer arithmetic), whose outer lines / hole lines are
       the rings written from any start vertex in any direction: folding addToMultiPolygon over
       the hole lines IN ANY ORDER puts every hole into the polygon of its own outer and into no
-      other, and creates no extra hole.  (That an odd crossing number is what "strictly inside a
-      simple polygon" means geometrically - Jordan - is not proved: 7c shows the code computes
-      exactly that rule.) *)
+      other, and creates no extra hole.  (7c: the code's test is exactly the rational even-odd
+      rule; 10 / 10b: for star-shaped outers it follows from geometric containment, and
+      C16_holes_assigned_geo states this theorem over it.) *)
 Theorem C16_holes_assigned : forall incl (sc' : gscene) orings rhs' hlines,
   NoDup (concat (s_outers sc')) -> NoDup (concat (s_holes sc')) ->
   Forall (fun r => (3 <= length r)%nat) (s_outers sc' ++ s_holes sc') ->
@@ -373,6 +383,42 @@ Theorem C16_build_polygon_recovers_geo : forall incl nodes ways members ds (sc :
     length (concat (map (@tl line) mp)) = length (s_holes sc).
 Proof. exact build_polygon_recovers_geo. Qed.
 Print Assumptions C16_build_polygon_recovers_geo.
+
+(* 11. addToMultiPolygon on ARBITRARY input (malformed relations: rings that no outer contains,
+       unclosed or missing outer rings), with and without IncludeInvalidPolygons.
+       [add_cases]: exactly one of three things happens - the ring is appended to the FIRST
+       polygon whose first ring contains it; or nothing changes (no container, option off); or
+       (no container, option on) it is appended to the first polygon if that one's outer ring is
+       non-empty and unclosed, else to the first polygon without outer ring, else to a new
+       polygon [[]; ring] at the end.
+       [add_all_kept]: for the whole inner loop of buildPolygon - no polygon or ring already
+       there is lost or reordered and only rings of the list are added; with the option every
+       ring of the list is kept exactly once; without it exactly the rings contained in some
+       first ring are kept, once each, the others are dropped, and no polygon is created. *)
+Theorem C16_add_cases : forall incl mp ring,
+  let res := add_to_multipolygon incl mp ring in
+  (contains_in mp ring = true /\
+   exists k poly, @nth_error polygon mp k = Some poly /\ polygon_contains (hd [] poly) ring = true /\
+     (forall j p, (j < k)%nat -> @nth_error polygon mp j = Some p -> polygon_contains (hd [] p) ring = false) /\
+     res = upd k (poly ++ [ring]) mp) \/
+  (contains_in mp ring = false /\ incl = false /\ res = mp) \/
+  (contains_in mp ring = false /\ incl = true /\
+   ((exists k poly, @nth_error polygon mp k = Some poly /\ res = upd k (poly ++ [ring]) mp /\
+       ((k = 0%nat /\ hd [] poly <> [] /\ closedb (hd [] poly) = false) \/ hd [] poly = [])) \/
+    res = mp ++ [[[]; ring]])).
+Proof. exact add_cases. Qed.
+Print Assumptions C16_add_cases.
+
+Theorem C16_add_all_kept : forall incl0 ls mp0, nonempty_polys mp0 ->
+  let res := add_all incl0 mp0 ls in
+  nonempty_polys res /\
+  (incl0 = true -> holes_total res = (holes_total mp0 + length ls)%nat) /\
+  (incl0 = false -> holes_total res = (holes_total mp0 + length (filter (contains_in mp0) ls))%nat /\
+                    map (hd []) res = map (hd []) mp0) /\
+  (forall k poly, @nth_error polygon mp0 k = Some poly ->
+     exists extra, @nth_error polygon res k = Some (poly ++ extra) /\ List.incl extra ls).
+Proof. exact add_all_kept. Qed.
+Print Assumptions C16_add_all_kept.
 
 (* 9. tie by translation.  gen/GenMputil.v is regenerated from /repo's Go source on every run by
       translator/cmd/mputil (go/ast): Join's if / else-if chain as a table, the first-half test of
@@ -605,3 +651,11 @@ Proof.
   - intros o hs h [E|[]] Hh. inversion E; subst. destruct Hh as [<-|[]]. exact ex9_inside_star.
   - intros o hs h o' hs' [E|[]] Hh [E'|[]] Hne. inversion E; inversion E'; subst. congruence.
 Qed.
+
+(* 11 on a malformed case: one closed outer, one unclosed outer first, a ring nobody contains *)
+Definition ex11_mp : multipolygon := [[[(0,0); (4,0); (4,4)]]; [[(10,10); (20,10); (20,20); (10,10)]]].
+Example ex11_on : add_to_multipolygon true ex11_mp [(50,50); (51,50); (50,51); (50,50)] =
+  [[[(0,0); (4,0); (4,4)]; [(50,50); (51,50); (50,51); (50,50)]]; [[(10,10); (20,10); (20,20); (10,10)]]].
+Proof. vm_compute. reflexivity. Qed.
+Example ex11_off : add_to_multipolygon false ex11_mp [(50,50); (51,50); (50,51); (50,50)] = ex11_mp.
+Proof. vm_compute. reflexivity. Qed.
